@@ -1186,6 +1186,10 @@ class TdlChannel:
         # if signal is 1D and we have a SIMO system.
         signal = self.__prepare_transmit_signal_shape(signal)
 
+        # Accept any integer type (e.g. numpy integer scalars): the sizes
+        # computed below must not overflow a narrow integer type.
+        fft_size = int(fft_size)
+
         # xxxxxxxxxx Get the block size xxxxxxxxxxxxxxxxxxxxxxxxxxxxxxxxxxx
         if carrier_indexes is None:
             block_size = fft_size
